@@ -448,6 +448,12 @@ class Evaluator:
         return tuple(out)
 
     def subscript(self, base, idx, node):
+        if isinstance(base, str):
+            if len(idx) == 1:
+                try:
+                    return base[idx[0]]
+                except IndexError:
+                    raise AnalysisError("E3: string index out of range (line %d)" % node.lineno)
         if isinstance(base, (list, tuple)):
             if len(idx) == 1:
                 try:
@@ -544,7 +550,19 @@ class Evaluator:
         if isinstance(op, ast.Mult) and isinstance(a, list) and const_int(b) is not None and not isinstance(b, Arr):
             return a * const_int(b)
         if isinstance(op, ast.Mod) and isinstance(a, str):
-            return ("fmt", a)
+            vals = b if isinstance(b, tuple) else (b,)
+            conv = []
+            for v in vals:
+                ci = const_int(v)
+                conv.append(ci if ci is not None else v)
+            if all(isinstance(v, (int, str)) for v in conv):
+                try:
+                    return a % tuple(conv)
+                except (TypeError, ValueError):
+                    pass
+            raise AnalysisError("E3: string formatting with a non-constant (line %d)" % getattr(node, "lineno", 0))
+        if isinstance(op, ast.Add) and isinstance(a, str) and isinstance(b, str):
+            return a + b
         if isinstance(op, ast.MatMult):
             return self.np_dot(a, b, node)
         A = a if isinstance(a, Arr) else (materialise(a) if isinstance(a, (Opaque, list, tuple)) else None)
@@ -744,6 +762,9 @@ class Evaluator:
                     return self.np_call(alias.get(name[5:], name[5:]), args, kwargs, node)
                 if name.startswith("six.moves.range"):
                     return self.builtin("range", args, kwargs, node)
+                if name == "re.sub" and len(args) == 3 and all(isinstance(x, str) for x in args):
+                    import re as _re
+                    return _re.sub(args[0], args[1], args[2])
                 self.calls.append((name, [vkey(a) for a in args], node.lineno))
                 if self.import_policy is not None:
                     r = self.import_policy(name, args, kwargs, node)
@@ -834,8 +855,18 @@ class Evaluator:
                 return parts
             r = red(A.data, 0)
             return Arr(r) if isinstance(r, list) else r
-        if attr in ("lower", "upper", "strip") and isinstance(base, str):
+        if attr in ("lower", "upper", "strip", "lstrip", "rstrip") and isinstance(base, str) and not args:
             return getattr(base, attr)()
+        if attr in ("startswith", "endswith") and isinstance(base, str) and len(args) == 1 and isinstance(args[0], str):
+            return getattr(base, attr)(args[0])
+        if attr == "join" and isinstance(base, str) and len(args) == 1:
+            seq = args[0]
+            if isinstance(seq, str):
+                return base.join(seq)
+            if isinstance(seq, (list, tuple)) and all(isinstance(x, str) for x in seq):
+                return base.join(seq)
+        if attr == "replace" and isinstance(base, str) and len(args) == 2 and all(isinstance(x, str) for x in args):
+            return base.replace(args[0], args[1])
         return Opaque("%s.%s(%s)" % (vkey(base), attr, ",".join(vkey(a) for a in args)))
 
     def np_transpose(self, a, node):
@@ -877,6 +908,12 @@ class Evaluator:
             if len(sa) == 2 and len(sb) == 2 and sa[1] == sb[0]:
                 return Arr([[sp(A.data[i], [B.data[k][j] for k in range(sb[0])]) for j in range(sb[1])]
                             for i in range(sa[0])])
+            # numpy.dot(a, b) for N-D b sums over the last axis of a and the second-to-last of b
+            if len(sa) == 1 and len(sb) == 3 and sa[0] == sb[1]:
+                return Arr([[sp(A.data, [B.data[i][k][j] for k in range(sb[1])]) for j in range(sb[2])]
+                            for i in range(sb[0])])
+            if len(sa) == 3 and len(sb) == 1 and sa[2] == sb[0]:
+                return Arr([[sp(A.data[i][j], B.data) for j in range(sa[1])] for i in range(sa[0])])
         except AnalysisError:
             raise
         raise AnalysisError("E3: dot of shapes %s and %s (line %d)" % (sa, sb, getattr(node, "lineno", 0)))
@@ -1001,11 +1038,21 @@ class Evaluator:
             if A is not None and len(shape) == 2:
                 # homogeneity: inv(s*M) = inv(M)/s for the common positive content s = q*pi^k
                 content, prim = array_content(A)
-                inv = Opaque("inv(%s)" % prim.key(), shape)
+                # inv(X') = inv(X)': use the orientation with the smaller key so that both spellings share one opaque
+                primT = self.np_transpose(prim, node)
+                use_t = False
+                if shape[0] == shape[1] and prim._opaque_base() is None:
+                    use_t = primT._opaque_base() is not None or primT.key() < prim.key()
+                if use_t:
+                    inv = self.np_transpose(materialise(Opaque("inv(%s)" % primT.key(), shape)), node)
+                else:
+                    inv = Opaque("inv(%s)" % prim.key(), shape)
                 if content.equals(1):
                     return inv
                 return self.binop(ast.Div(), inv, content, node)
             return Opaque("inv(%s)" % vkey(v), shape)
+        if name == "linalg.solve" and len(args) == 2:
+            return self.np_dot(self.np_call("linalg.inv", [args[0]], {}, node), args[1], node)
         if name == "linalg.det" and len(args) == 1:
             return Rat.atom("det(%s)" % vkey(args[0]))
         if name in ("concatenate", "linalg.qr", "unique", "argsort", "sort", "arange", "clip", "max", "min",
